@@ -123,6 +123,13 @@ func ruleUnspentPoolOwnership(r *Run, rule string) {
 	if n < 3 {
 		r.Fail(rule, "UnspentPoolBkt writers", "", fmt.Sprintf("expected >= 3 write sites of UnspentPoolBkt, found %d", n))
 	}
+	// the two accessors are unconditional: every output handed to put is written under its hash, every hash handed
+	// to delete is removed (no output is silently dropped or kept)
+	r.RequireOnSuccess(rule, "visor/blockdb.pool.put",
+		req("the output encodes", "ok(visor/blockdb.encodeUxOut($3))"),
+		req("and is written to the pool bucket under the given hash", "ok(visor/dbutil.PutBucketValue($1, visor/blockdb.UnspentPoolBkt, $2[:], *))"))
+	r.RequireOnSuccess(rule, "visor/blockdb.pool.delete",
+		req("the hash is deleted from the pool bucket", "ok(visor/dbutil.Delete($1, visor/blockdb.UnspentPoolBkt, $2[:]))"))
 	r.checkCallers(rule, "visor/blockdb.pool.put", "visor/blockdb.Unspents.ProcessBlock")
 	r.checkCallers(rule, "visor/blockdb.pool.delete", "visor/blockdb.Unspents.ProcessBlock")
 	r.checkCallers(rule, "visor/blockdb.Unspents.ProcessBlock", "visor/blockdb.Blockchain.AddBlock")
